@@ -297,7 +297,7 @@ Definition cstep (c : cfg) (cs : cstate) (e : cevent) : cstate * list binding :=
       end
   end.
 
-(* a multi-thread run: firings (in the order the mutex admitted them) interleaved with coordinator events;
+(* a multi-thread run: firings (in the order the mutex let them in) interleaved with coordinator events;
    a Batch n takes the n oldest pending results (at least one if any) *)
 Inductive mact := MFire (i : N) (content : list triple) | MBatch (n : nat) | MDeadline.
 
